@@ -60,6 +60,13 @@ ASSUMPTIONS = [
     'A call whose reference exceeds the deterministic step budget is skipped (C08 owns termination).',
     'Worker threads of the scheduler are reused between executions (thread identity persists; the library has no '
     'thread-local state on the unchanged tree).',
+    'A state reached through a transition on which the invariant failed is reported, not expanded (what lies behind '
+    'it is a consequence of the reported violation).',
+    'If the module-level state of the library moves, the unit is repeated in tracking mode with a reduced battery '
+    '(a fixed even spread of 250 / 600 scripts) and a transition budget; such units are reported as capped.',
+    'A module or type that a codec\'s compiler rejects (e.g. PER SET with untagged members: TypeError in '
+    'compile_members) is left out for that codec and counted (types_rejected_by_compiler); compile-time behaviour '
+    'belongs to other properties.',
 ]
 
 FAIL_CAP = 12           # raw failures kept per unit
@@ -352,7 +359,8 @@ def units(tier):
     # long units first, so that the pool drains evenly
     s = _sched_units(tier)
     s.sort(key=lambda u: -u.P)
-    return s + _hist_units(tier)
+    h = _hist_units(tier)
+    return s[:2] + h[:2] + s[2:] + h[2:]
 
 
 def bounds(tier):
